@@ -411,7 +411,36 @@ func oddities(r *sim.R) {
 	t := r.T
 	opts := []ucfg.Option{ucfg.PathSep("."), ucfg.VarExp}
 	r.Fault("odd but legal argument (table)")
-	switch k := t.Choose(8, "oddity"); k {
+	switch k := t.Choose(9, "oddity"); k {
+	case 8:
+		// a config attached below itself through a path that runs through a reference to it (or
+		// to one of its ancestors): SetChild refuses or the tree stays finite - every read returns
+		c, _ := ucfg.NewFrom(map[string]interface{}{
+			"r": "${x}", "q": "${x.k}",
+			"x": map[string]interface{}{"k": map[string]interface{}{"leaf": uint64(1), "m": map[string]interface{}{"z": uint64(2)}}},
+		}, opts...)
+		path := []string{"r.k.j", "r.k.m.j", "q.j", "q.m.j", "r.j", "r.k"}[t.Choose(6, "path-through-reference")]
+		var val *ucfg.Config
+		switch t.Choose(3, "attached-config") {
+		case 0:
+			val, _ = c.Child("x", -1, opts...)
+		case 1:
+			val = c
+		default:
+			val, _ = c.Child("x.k", -1, opts...)
+		}
+		if val == nil {
+			return
+		}
+		r.Tracef("SetChild(%q) through a reference, of a config the path leads into; then every read", path)
+		call(r, "SetChild", func() { c.SetChild(path, -1, val, opts...) })
+		call(r, "Path", func() { _ = val.Path(".") })
+		call(r, "FlattenedKeys", func() { c.FlattenedKeys(opts...) })
+		call(r, "Unpack", func() { var m map[string]interface{}; c.Unpack(&m, opts...) })
+		call(r, "Unpack", func() { var m map[string]interface{}; val.Unpack(&m, opts...) })
+		call(r, "String", func() { c.String("x.k.leaf", -1, opts...) })
+		call(r, "Merge", func() { ucfg.New().Merge(c, opts...) })
+		call(r, "Merge", func() { ucfg.New().Merge(val, opts...) })
 	case 0:
 		// a pre-filled target that points to itself
 		n := &selfRef{V: 1}
@@ -474,7 +503,11 @@ func oddities(r *sim.R) {
 			map[string]interface{}{"a": "${b}", "b": []interface{}{"${a}"}},
 			map[string]interface{}{"a": "x"},
 			map[string]interface{}{"a": "${b}", "b": []interface{}{"x", "y"}},
-		}[t.Choose(5, "list-cycle")]
+			// an element that reaches the enclosing list through a chain of references
+			map[string]interface{}{"a": []interface{}{map[string]interface{}{"a": "${b}"}}, "b": "${a}"},
+			map[string]interface{}{"a": []interface{}{map[string]interface{}{"a": "${b}"}}, "b": "${c}", "c": "${a}"},
+			map[string]interface{}{"a": []interface{}{[]interface{}{"${b}"}}, "b": "${c}", "c": "${a}"},
+		}[t.Choose(8, "list-cycle")]
 		c, err := ucfg.NewFrom(in, opts...)
 		if err != nil {
 			return
